@@ -1,5 +1,5 @@
 (** * C12 -- the interpreter is total (the part a model of the AST-level pipeline can carry) *)
-From QV Require Import Interp ScalarR C12T.
+From QV Require Import Interp Sym ScalarR C12T C12T2.
 
 Theorem C12_terminates : C12_terminates_stmt.
 Proof. exact C12_terminates_proof. Qed.
@@ -8,3 +8,11 @@ Print Assumptions C12_terminates.
 Theorem C12_no_constructor_panic : C12_no_constructor_panic_stmt.
 Proof. exact C12_no_constructor_panic_proof. Qed.
 Print Assumptions C12_no_constructor_panic.
+
+Theorem C12_accepted_runs : C12_accepted_runs_stmt.
+Proof. exact C12_accepted_runs_proof. Qed.
+Print Assumptions C12_accepted_runs.
+
+Theorem C12_run_total : C12_run_total_stmt.
+Proof. exact C12_run_total_proof. Qed.
+Print Assumptions C12_run_total.
